@@ -3,6 +3,7 @@ import Mathlib.Tactic.Ring
 import Mathlib.Tactic.Linarith
 import PdfVerif.Model.Layout
 import PdfVerif.Lemmas.Layout
+import PdfVerif.Lemmas.Plane
 
 namespace PdfVerif.Layout
 open PdfVerif PdfVerif.Gen.Layout
@@ -74,14 +75,11 @@ theorem W_map_false {α : Type} (l : List α) (f : α → HEntry) (hf : ∀ x, (
 
 /-! ### the plane -/
 
-theorem remove_seq (p : Plane.Plane) (o : Plane.PObj) : (Plane.remove p o).1.seq = p.seq := by
-  unfold Plane.remove; split <;> rfl
+theorem remove_seq (p : Plane.Plane) (o : Plane.PObj) : (Plane.remove p o).1.seq = p.seq :=
+  PdfVerif.Plane.remove_seq p o
 
-theorem remove_objs (p : Plane.Plane) (o : Plane.PObj) : (Plane.remove p o).1.objs = p.objs.erase o.id := by
-  unfold Plane.remove
-  split
-  · rfl
-  · rename_i h; simp only; exact (List.erase_of_not_mem h).symm
+theorem remove_objs (p : Plane.Plane) (o : Plane.PObj) : (Plane.remove p o).1.objs = p.objs.erase o.id :=
+  PdfVerif.Plane.remove_objs p o
 
 theorem add_seq (p : Plane.Plane) (o : Plane.PObj) : (Plane.add p o).seq = p.seq ++ [o] := rfl
 
@@ -450,11 +448,8 @@ theorem iter_remove (p : Plane.Plane) (o : Plane.PObj) (hn : p.objs.Nodup) :
     simp [h, this]
   · simp [h, List.mem_erase_of_ne h]
 
-theorem remove_ok (p : Plane.Plane) (o : Plane.PObj) (h : o.id ∈ p.objs) : (Plane.remove p o).2 = true := by
-  unfold Plane.remove
-  split
-  · rfl
-  · contradiction
+theorem remove_ok (p : Plane.Plane) (o : Plane.PObj) (h : o.id ∈ p.objs) : (Plane.remove p o).2 = true :=
+  PdfVerif.Plane.remove_ok p o h
 
 theorem iter_add (p : Plane.Plane) (o : Plane.PObj) (h1 : o.id ∉ p.objs) (h2 : ∀ x ∈ p.seq, x.id ≠ o.id) :
     Plane.iter (Plane.add p o) = Plane.iter p ++ [o] := by
